@@ -907,4 +907,249 @@ theorem mean_entry (n m : ℕ) (g : ℕ → Sh.Game n) (i : Fin n) :
   rw [e, sum_map_mul_left', BruteP.sum_range_map, Nat.cast_mul, ← div_div, mul_div_cancel_left₀ _ hn]
   ring
 
+/-! ### executable checks of the hypotheses (used by the concrete instances) -/
+
+/-- `OracleSpec` as a Boolean check -/
+def oracleCheck (p : Prov.P) (labels : List ℕ) (dist : List ℚ) (K c : ℕ)
+    (b : Built (Dom.tally (p.nUnits - 1) K c)) (i : ℕ) : Bool :=
+  (boundaryPairs p.data.length).all (fun tp =>
+    match query c b p.data.length i (some tp.1) tp.2 with
+    | .ok counts =>
+        counts.length == (Dom.tally (p.nUnits - 1) K c).vecs.length + 1 &&
+        (List.range (Dom.tally (p.nUnits - 1) K c).vecs.length).all (fun k =>
+          counts.getD k 0 ==
+            ((countSpec p labels dist c K i (some tp.1) tp.2
+              (vT ((Dom.tally (p.nUnits - 1) K c).vecs.getD k []))
+              (vW c ((Dom.tally (p.nUnits - 1) K c).vecs.getD k []))
+              (vWo c ((Dom.tally (p.nUnits - 1) K c).vecs.getD k [])) : ℕ) : ℤ))
+    | .error _ => false)
+
+theorem oracleCheck_sound (p : Prov.P) (labels : List ℕ) (dist : List ℚ) (K c : ℕ)
+    (b : Built (Dom.tally (p.nUnits - 1) K c)) (i : ℕ) (h : oracleCheck p labels dist K c b i = true) :
+    OracleSpec p labels dist K c b i := by
+  intro t1 ht1 t2 ht2
+  have h' := List.all_eq_true.mp h (t1, t2) ((mem_boundaryPairs _ _).mpr ⟨ht1, ht2⟩)
+  simp only at h'
+  cases hq : query c b p.data.length i (some t1) t2 with
+  | error e => rw [hq] at h'; simp at h'
+  | ok counts =>
+    rw [hq] at h'
+    simp only [Bool.and_eq_true, beq_iff_eq, List.all_eq_true, List.mem_range] at h'
+    refine ⟨counts, rfl, h'.1, ?_⟩
+    intro k hk
+    have := h'.2 k hk
+    rw [List.getD_eq_getElem?_getD (l := (Dom.tally (p.nUnits - 1) K c).vecs),
+      List.getElem?_eq_getElem hk, Option.getD_some] at this
+    exact this
+
+/-- `build` succeeds and the oracle hypothesis holds for every unit, as a Boolean check -/
+def buildCheck (p : Prov.P) (labels : List ℕ) (dist : List ℚ) (K c : ℕ) : Bool :=
+  match build (Dom.tally (p.nUnits - 1) K c) c p labels dist with
+  | .ok b => (List.range p.nUnits).all (oracleCheck p labels dist K c b)
+  | .error _ => false
+
+theorem buildCheck_sound (p : Prov.P) (labels : List ℕ) (dist : List ℚ) (K c : ℕ)
+    (h : buildCheck p labels dist K c = true) :
+    ∃ b : Built (Dom.tally (p.nUnits - 1) K c),
+      build (Dom.tally (p.nUnits - 1) K c) c p labels dist = .ok b ∧
+        ∀ i < p.nUnits, OracleSpec p labels dist K c b i := by
+  unfold buildCheck at h
+  cases hb : build (Dom.tally (p.nUnits - 1) K c) c p labels dist with
+  | error e => rw [hb] at h; simp at h
+  | ok b =>
+    rw [hb] at h
+    simp only [List.all_eq_true, List.mem_range] at h
+    exact ⟨b, rfl, fun i hi => oracleCheck_sound p labels dist K c b i (h i hi)⟩
+
+/-! ### coalitions as indicator lists -/
+
+theorem getD_ofSet {n : ℕ} (S : Finset (Fin n)) (u : ℕ) :
+    (BruteP.ofSet S).getD u 0 = 1 ↔ ∃ h : u < n, (⟨u, h⟩ : Fin n) ∈ S := by
+  unfold BruteP.ofSet
+  rw [List.getD_eq_getElem?_getD]
+  by_cases hu : u < n
+  · rw [List.getElem?_eq_getElem (by simpa using hu), Option.getD_some, List.getElem_ofFn]
+    by_cases hm : (⟨u, hu⟩ : Fin n) ∈ S
+    · simp [hm, hu]
+    · simp [hm]
+  · rw [List.getElem?_eq_none (by simpa using hu)]
+    simp [hu]
+
+/-- conjunctive presence is monotone in the coalition -/
+theorem presentRows_ofSet_mono (p : Prov.P) {S T : Finset (Fin p.nUnits)} (h : S ⊆ T) :
+    (presentRows p (BruteP.ofSet S)).Sublist (presentRows p (BruteP.ofSet T)) := by
+  apply presentRows_mono
+  intro u hu
+  obtain ⟨hlt, hm⟩ := (getD_ofSet S u).mp hu
+  exact (getD_ofSet T u).mpr ⟨hlt, h hm⟩
+
+theorem knnGame_null (p : Prov.P) (labels order : List ℕ) (util : List ℚ) (null : ℚ) (K c : ℕ)
+    (hp : order.Perm (List.range p.data.length)) (S : Finset (Fin p.nUnits))
+    (h : (presentRows p (BruteP.ofSet S)).length < K) :
+    knnGame p labels order util null K c S = null := by
+  unfold knnGame
+  rw [knnValue_eq' _ _ _ _ _ _ _ _ hp, if_neg (by omega)]
+
+/-! ### `K = 1`, one unit per row: the game is the 1-NN game of the kernel path -/
+
+theorem foldl_max_le (l : List ℕ) (a b : ℕ) (ha : a ≤ b) (h : ∀ x ∈ l, x ≤ b) : l.foldl max a ≤ b := by
+  induction l generalizing a with
+  | nil => simpa using ha
+  | cons x l ih =>
+    rw [List.foldl_cons]
+    exact ih _ (max_le ha (h x List.mem_cons_self)) (fun y hy => h y (List.mem_cons_of_mem _ hy))
+
+theorem le_foldl_max (l : List ℕ) (a : ℕ) : a ≤ l.foldl max a ∧ ∀ x ∈ l, x ≤ l.foldl max a := by
+  induction l generalizing a with
+  | nil => simp
+  | cons x l ih =>
+    rw [List.foldl_cons]
+    obtain ⟨h1, h2⟩ := ih (max a x)
+    refine ⟨le_trans (le_max_left _ _) h1, ?_⟩
+    intro y hy
+    rcases List.mem_cons.mp hy with rfl | hy
+    · exact le_trans (le_max_right _ _) h1
+    · exact h2 y hy
+
+/-- the tally of a single row is the one-hot vector of its label; its first maximum is the label -/
+theorem argmaxFirst_single (c : ℕ) (labels : List ℕ) (x : ℕ) (hl : labels.getD x 0 < c) :
+    argmaxFirst (tallyL c labels [x]) = labels.getD x 0 := by
+  set l := labels.getD x 0 with hldef
+  have e : tallyL c labels [x] = (List.range c).map (fun k => if l = k then 1 else 0) := by
+    unfold tallyL
+    apply List.map_congr_left
+    intro k _
+    by_cases h : l = k
+    · have hb : (labels.getD x 0 == k) = true := by rw [← hldef, h]; simp
+      rw [List.filter_cons, if_pos hb, if_pos h]; rfl
+    · have hb : ¬ (labels.getD x 0 == k) = true := by rw [← hldef]; simpa using h
+      rw [List.filter_cons, if_neg hb, if_neg h]; rfl
+  obtain ⟨m, hm⟩ : ∃ m, c = l + (1 + m) := ⟨c - l - 1, by omega⟩
+  have e2 : (List.range c).map (fun k => if l = k then 1 else 0)
+      = List.replicate l 0 ++ 1 :: (List.range m).map (fun k => if l = l + (1 + k) then 1 else 0) := by
+    rw [hm, List.range_add, List.map_append, List.range_add, List.map_append]
+    congr 1
+    · apply List.ext_getElem
+      · simp
+      · intro k h1 h2
+        have : k < l := by simpa using h1
+        have : ¬ l = k := by omega
+        simp [this]
+    · simp [List.map_map, Function.comp_def]
+  have hmax : (tallyL c labels [x]).foldl max 0 = 1 := by
+    apply le_antisymm
+    · apply foldl_max_le _ _ _ (by omega)
+      intro y hy
+      rw [e, List.mem_map] at hy
+      obtain ⟨k, _, rfl⟩ := hy
+      split <;> omega
+    · apply (le_foldl_max _ 0).2
+      rw [e, e2]
+      simp
+  unfold argmaxFirst
+  simp only
+  rw [hmax, e, e2, List.idxOf_append_of_notMem (by simp), List.idxOf_cons_self]
+  simp
+
+theorem perm_isPerm {n : ℕ} {order : List ℕ} (hp : order.Perm (List.range n)) :
+    Ds.Kernel.isPerm n order = true := by
+  unfold Ds.Kernel.isPerm
+  rw [Bool.and_eq_true]
+  refine ⟨by simpa using hp.length_eq, ?_⟩
+  rw [List.all_eq_true]
+  intro u hu
+  simpa using hp.mem_iff.mpr hu
+
+theorem knnGame_one_eq (p : Prov.P) (labels order : List ℕ) (util : List ℚ) (null : ℚ) (c : ℕ)
+    (hn : p.data.length = p.nUnits) (hrow : ∀ r < p.nUnits, rowUnits (p.data.getD r []) = [r])
+    (hperm : order.Perm (List.range p.nUnits)) (hlab : ∀ r < p.nUnits, labels.getD r 0 < c)
+    (hutil : c ≤ util.length) :
+    knnGame p labels order util null 1 c = Ds.Kernel.nnGameU p.nUnits order labels util null := by
+  funext S
+  have hip := perm_isPerm hperm
+  have hperm' : order.Perm (List.range p.data.length) := by rw [hn]; exact hperm
+  have hmem : ∀ r, r ∈ presentRows p (BruteP.ofSet S) ↔ ∃ h : r < p.nUnits, (⟨r, h⟩ : Fin p.nUnits) ∈ S := by
+    intro r
+    rw [mem_presentRows, hn]
+    constructor
+    · rintro ⟨h1, h2⟩
+      unfold rowPresent at h2
+      rw [hrow r h1] at h2
+      simp only [List.all_cons, List.all_nil, Bool.and_true, beq_iff_eq] at h2
+      exact (getD_ofSet S r).mp h2
+    · rintro ⟨h1, h2⟩
+      refine ⟨h1, ?_⟩
+      unfold rowPresent
+      rw [hrow r h1]
+      simp only [List.all_cons, List.all_nil, Bool.and_true, beq_iff_eq]
+      exact (getD_ofSet S r).mpr ⟨h1, h2⟩
+  unfold knnGame Ds.Kernel.nnGameU
+  rw [knnValue_eq' _ _ _ _ _ _ _ _ hperm']
+  by_cases hS : S.Nonempty
+  · rw [dif_pos hS]
+    obtain ⟨u, huS, hu, hmin⟩ := Ds.Kernel.nearest_spec hip S hS
+    have hupres : u.val ∈ presentRows p (BruteP.ofSet S) := (hmem u.val).mpr ⟨u.isLt, huS⟩
+    have hpos : 1 ≤ (presentRows p (BruteP.ofSet S)).length := List.length_pos_of_mem hupres
+    rw [if_pos hpos]
+    -- the first entry of the sorted present rows is `u`
+    have huo : u.val ∈ order := hperm.mem_iff.mpr (List.mem_range.mpr u.isLt)
+    obtain ⟨as, bs, hsplit⟩ := List.append_of_mem huo
+    have hnd : order.Nodup := hperm.nodup_iff.mpr List.nodup_range
+    have hnotin : u.val ∉ as := by
+      intro h
+      rw [hsplit] at hnd
+      exact (List.nodup_append.mp hnd).2.2 _ h _ List.mem_cons_self rfl
+    have hfind : order.find? (presentRows p (BruteP.ofSet S)).contains = some u.val := by
+      rw [List.find?_eq_some_iff_append]
+      refine ⟨by simpa using hupres, as, bs, hsplit, ?_⟩
+      intro a ha
+      simp only [List.contains_eq_mem, Bool.not_eq_eq_eq_not, Bool.not_true, decide_eq_false_iff_not]
+      intro hap
+      obtain ⟨hlt, hm⟩ := (hmem a).mp hap
+      have h1 := hmin ⟨a, hlt⟩ hm
+      rw [hsplit, List.idxOf_append_of_notMem hnotin, List.idxOf_cons_self,
+        List.idxOf_append_of_mem ha] at h1
+      have := List.idxOf_lt_length_of_mem ha
+      omega
+    have hhead : (sortedPresent p order (BruteP.ofSet S)).head? = some u.val := by
+      unfold sortedPresent
+      rw [List.head?_filter, hfind]
+    have htake : (sortedPresent p order (BruteP.ofSet S)).take 1 = [u.val] := by
+      cases hL : sortedPresent p order (BruteP.ofSet S) with
+      | nil => rw [hL] at hhead; simp at hhead
+      | cons y t =>
+        rw [hL] at hhead
+        simp only [List.head?_cons, Option.some.injEq] at hhead
+        simp [hhead]
+    rw [htake, argmaxFirst_single c labels u.val (hlab _ u.isLt), ← hu]
+    have hlt : labels.getD u.val 0 < util.length := lt_of_lt_of_le (hlab _ u.isLt) hutil
+    have hget : ∀ d : ℚ, util.getD (labels.getD u.val 0) d = util[labels.getD u.val 0] := by
+      intro d
+      rw [List.getD_eq_getElem?_getD, List.getElem?_eq_getElem hlt, Option.getD_some]
+    rw [hget, hget]
+  · rw [dif_neg hS]
+    have hempty : presentRows p (BruteP.ofSet S) = [] := by
+      rw [List.eq_nil_iff_forall_not_mem]
+      intro r hr
+      obtain ⟨h1, h2⟩ := (hmem r).mp hr
+      exact hS ⟨_, h2⟩
+    rw [hempty, if_neg (by simp)]
+
+/-- explicit decidable form of "conjunctive provenance over the units `0 … n-1`": every row has exactly
+one disjunct, its literals are padding or `(unit < n, candidate 1)`, and the units of a row are distinct -/
+def conjunctiveOk (p : Prov.P) : Bool :=
+  p.data.all (fun r =>
+    r.length == 1 &&
+    (r.getD 0 []).all (fun l => (l.1 == -1 && l.2 == -1) || (decide (0 ≤ l.1) && decide (l.1 < p.nUnits) && l.2 == 1)) &&
+    decide (rowUnits r).Nodup)
+
+/-! ### data of the concrete instances in `Properties/C02.lean` -/
+
+/-- three rows, row `r` depends on unit `r` only -/
+def exP3 : Prov.P := { data := [[[(0, 1)]], [[(1, 1)]], [[(2, 1)]]], nDisj := 1, nConj := 1, nUnits := 3 }
+
+/-- a join provenance: row 0 needs units 0 and 1, row 1 needs unit 1, row 2 needs units 2 and 0 -/
+def exJoin : Prov.P :=
+  { data := [[[(0, 1), (1, 1)]], [[(1, 1), (-1, -1)]], [[(2, 1), (0, 1)]]], nDisj := 1, nConj := 2, nUnits := 3 }
+
 end AddPath
